@@ -48,10 +48,12 @@ def initial_state(E: Engine):
             st.assume(v.t >= 0 if ty.nullable else v.t > 0)
         env[p] = v
     st.env = dict(env)
+    for g, gty in S.GHOSTS.items():
+        st.ghost[g] = fresh(gty, "G0_" + g)
     return st, env
 
 
-def check(pc, goal, timeout_ms=None):
+def check(pc, goal, timeout_ms=None, quick=False):
     """Is pc => goal valid?  returns (status, model|None, backend, seconds, text, candidate_model).
 
     1. hypotheses without quantifiers (a subset of pc): unsat is already a proof, and a model is a
@@ -85,6 +87,18 @@ def check(pc, goal, timeout_ms=None):
     if r == z3.sat:
         return VIOLATED, s.model(), "z3", dt, "sat", None
     reason = s.reason_unknown()
+    # model search with bounded-quantifier validation (sound: the returned model is checked
+    # against every hypothesis that was left out of the query)
+    try:
+        m2, rounds = bounded_mbqi(pc, goal)
+    except Exception:
+        m2, rounds = None, 0
+    if m2 is not None:
+        return VIOLATED, m2, "z3", time.time() - t0, \
+            "sat (z3 %s on the full query; model found without the sequence-indexed quantified hypotheses and " \
+            "validated against each of them by exhaustive instantiation over their bounded ranges, %d refinement round(s))" % (reason, rounds), None
+    if quick:
+        return UNDECIDED, None, "z3", time.time() - t0, "z3 unknown (%s); short budget" % reason, cand
     # second opinion
     st2, txt, dt2 = cvc5_check(s)
     if st2 == "unsat":
@@ -92,6 +106,155 @@ def check(pc, goal, timeout_ms=None):
     if st2 == "sat":
         return VIOLATED, None, "cvc5", dt + dt2, "z3 unknown (%s); cvc5 sat\n%s" % (reason, txt[:2000]), cand
     return UNDECIDED, None, "z3+cvc5", dt + dt2, "z3 unknown (%s); cvc5 %s" % (reason, st2), cand
+
+
+def _has_seq_op(e):
+    todo, seen = [e], set()
+    while todo:
+        x = todo.pop()
+        if x.get_id() in seen:
+            continue
+        seen.add(x.get_id())
+        if z3.is_app(x) and x.decl().kind() in (z3.Z3_OP_SEQ_LENGTH, z3.Z3_OP_SEQ_NTH, z3.Z3_OP_SEQ_AT,
+                                                z3.Z3_OP_SEQ_EXTRACT, z3.Z3_OP_SEQ_PREFIX, z3.Z3_OP_SEQ_CONTAINS):
+            return True
+        if z3.is_quantifier(x):
+            todo.append(x.body())
+        else:
+            todo.extend(x.children())
+    return False
+
+
+def _split_bounded(q):
+    """ForAll(vars, Implies(And(bounds...), body)) with integer vars -> (names, sorts, guard list, body) or None."""
+    if not (z3.is_quantifier(q) and q.is_forall()):
+        return None
+    n = q.num_vars()
+    sorts = [q.var_sort(i) for i in range(n)]
+    if any(srt != z3.IntSort() for srt in sorts):
+        return None
+    body = q.body()
+    if not (z3.is_app(body) and body.decl().kind() == z3.Z3_OP_IMPLIES):
+        return None
+    guard, concl = body.arg(0), body.arg(1)
+    return n, guard, concl
+
+
+def _validate_forall(model, q, limit=4096):
+    """True / False(+instance) / None(unknown): does `model` satisfy the bounded quantifier q?"""
+    sp = _split_bounded(q)
+    if sp is None:
+        return None, None
+    n, guard, concl = sp
+    # de Bruijn: var index i refers to the (n-1-i)-th bound variable
+    fresh_vars = [z3.Int("v!val%d" % i) for i in range(n)]
+    subst = list(reversed(fresh_vars))
+    g = z3.substitute_vars(guard, *subst)
+    c = z3.substitute_vars(concl, *subst)
+    # find numeric bounds for each var from the guard under the model
+    conj = g.children() if z3.is_and(g) else [g]
+    lo = {v.get_id(): None for v in fresh_vars}
+    hi = {v.get_id(): None for v in fresh_vars}
+    for cj in conj:
+        if not z3.is_app(cj) or cj.num_args() != 2:
+            continue
+        k = cj.decl().kind()
+        a, b = cj.arg(0), cj.arg(1)
+        for v in fresh_vars:
+            def val(t):
+                r = model.eval(t, model_completion=True)
+                return r.as_long() if z3.is_int_value(r) else None
+            if a.get_id() == v.get_id():
+                bv = val(b)
+                if bv is None:
+                    continue
+                if k == z3.Z3_OP_LT:
+                    hi[v.get_id()] = bv - 1 if hi[v.get_id()] is None else min(hi[v.get_id()], bv - 1)
+                elif k == z3.Z3_OP_LE:
+                    hi[v.get_id()] = bv if hi[v.get_id()] is None else min(hi[v.get_id()], bv)
+                elif k == z3.Z3_OP_GT:
+                    lo[v.get_id()] = bv + 1 if lo[v.get_id()] is None else max(lo[v.get_id()], bv + 1)
+                elif k == z3.Z3_OP_GE:
+                    lo[v.get_id()] = bv if lo[v.get_id()] is None else max(lo[v.get_id()], bv)
+            elif b.get_id() == v.get_id():
+                av = val(a)
+                if av is None:
+                    continue
+                if k == z3.Z3_OP_LT:
+                    lo[v.get_id()] = av + 1 if lo[v.get_id()] is None else max(lo[v.get_id()], av + 1)
+                elif k == z3.Z3_OP_LE:
+                    lo[v.get_id()] = av if lo[v.get_id()] is None else max(lo[v.get_id()], av)
+                elif k == z3.Z3_OP_GT:
+                    hi[v.get_id()] = av - 1 if hi[v.get_id()] is None else min(hi[v.get_id()], av - 1)
+                elif k == z3.Z3_OP_GE:
+                    hi[v.get_id()] = av if hi[v.get_id()] is None else min(hi[v.get_id()], av)
+    ranges = []
+    total = 1
+    for v in fresh_vars:
+        l, h = lo[v.get_id()], hi[v.get_id()]
+        if l is None or h is None:
+            return None, None
+        ranges.append(range(l, h + 1))
+        total *= max(0, h - l + 1)
+        if total > limit:
+            return None, None
+    import itertools as _it
+    for combo in _it.product(*ranges):
+        sub = [(v, z3.IntVal(x)) for v, x in zip(fresh_vars, combo)]
+        gi = model.eval(z3.substitute(g, *sub), model_completion=True)
+        if z3.is_false(gi):
+            continue
+        ci = model.eval(z3.substitute(c, *sub), model_completion=True)
+        if z3.is_true(ci):
+            continue
+        inst = z3.Implies(z3.substitute(g, *sub), z3.substitute(c, *sub))
+        if z3.is_false(ci) and z3.is_true(gi):
+            return False, inst
+        return None, inst
+    return True, None
+
+
+def bounded_mbqi(pc, goal, rounds=6):
+    """Counter-model search: leave out the quantified hypotheses that involve sequence terms, solve,
+    then validate the model against each of them exhaustively (bounded ranges); refine with the
+    violated instances.  Returns (model, rounds) only when *every* hypothesis is satisfied."""
+    from .engine import has_quantifier
+    hard = [p for p in pc if has_quantifier(p) and _has_seq_op(p)]
+    if not hard:
+        return None, 0
+    easy = [p for p in pc if not (has_quantifier(p) and _has_seq_op(p))]
+    lemmas = []
+    for r in range(rounds):
+        s = z3.Solver()
+        s.set("timeout", 4000)
+        s.add(*easy)
+        s.add(*lemmas)
+        s.add(z3.Not(goal))
+        if s.check() != z3.sat:
+            return None, r
+        m = s.model()
+        ok = True
+        for q in hard:
+            # conjunctions of quantifiers: validate each conjunct
+            parts = q.children() if z3.is_and(q) else [q]
+            for part in parts:
+                if not has_quantifier(part):
+                    v = m.eval(part, model_completion=True)
+                    if not z3.is_true(v):
+                        lemmas.append(part)
+                        ok = False
+                    continue
+                verdict, inst = _validate_forall(m, part)
+                if verdict is True:
+                    continue
+                ok = False
+                if inst is not None:
+                    lemmas.append(inst)
+                else:
+                    return None, r      # cannot validate this hypothesis: no verdict
+        if ok:
+            return m, r + 1
+    return None, rounds
 
 
 def cvc5_check(solver):
@@ -195,8 +358,12 @@ def verify_function(key, prop_prefix="", replayer=None, only_labels=None) -> lis
         agg_status, agg_time, backends, outs = DISCHARGED, 0.0, set(), []
         witness, wit_obl, wmodel = None, None, None
         cand_model, cand_obl = None, None
+        slow_left = 2          # full-budget attempts per clause; further undecided paths get a short budget
         for o in obs:
-            status, model, backend, dt, txt, cand = check(o.pc, o.goal)
+            status, model, backend, dt, txt, cand = check(o.pc, o.goal, timeout_ms=None if slow_left > 0 else 1500,
+                                                          quick=slow_left <= 0)
+            if status == UNDECIDED:
+                slow_left -= 1
             agg_time += dt
             backends.add(backend)
             if status == VIOLATED:
@@ -216,6 +383,9 @@ def verify_function(key, prop_prefix="", replayer=None, only_labels=None) -> lis
                    backend="+".join(sorted(backends)), time_s=agg_time, function=key,
                    detail="%s [%d path(s)] %s" % (label, len(obs), obs[0].info), witness=witness,
                    output="\n".join(outs))
+        r.cand = cand_model is not None
+        if agg_status == UNDECIDED and cand_model is not None and witness is None:
+            r.witness = model_json(E, cand_model, env)
         if agg_status == VIOLATED and replayer is not None:
             try:
                 rep = replayer(E, c, wmodel, env, wit_obl)
@@ -252,14 +422,101 @@ def verify_function(key, prop_prefix="", replayer=None, only_labels=None) -> lis
     return results, E
 
 
+def frame_allowed(E: Engine, c: S.Contract, env):
+    """(allowed: heap key prefix -> list of index terms or '*', ghosts: set) from the modifies clause,
+    evaluated in the pre-state."""
+    import ast as _ast
+    from .speceval import parse_expr
+    old = E.old0
+    allowed, ghosts = {}, set()
+
+    def add(key, idx):
+        allowed.setdefault(key, []).append(idx)
+
+    def container_keys(v):
+        if is_listlike(v.ty):
+            add("list:%s" % elem_ty(v.ty), v.t)
+        elif is_dictlike(v.ty):
+            kt, vt = dict_tys(v.ty)
+            add("ddom:%s~%s" % (kt, vt), v.t)
+            add("dval:%s~%s" % (kt, vt), v.t)
+        elif v.ty.kind == "set":
+            add("set:%s" % v.ty.args[0], v.t)
+        else:
+            raise Unsupported("modifies: %s is not a container" % v.ty)
+
+    se = SpecEval(old, env, None, None, E)
+    for loc in c.modifies:
+        n = parse_expr(loc)
+        if isinstance(n, _ast.Attribute) and isinstance(n.value, _ast.Name) and n.value.id == "G":
+            ghosts.add(n.attr)
+            continue
+        if isinstance(n, _ast.Call) and isinstance(n.func, _ast.Name) and n.func.id == "heap":
+            add(n.args[0].value, "*")
+            continue
+        pointer = False
+        if isinstance(n, _ast.Call) and isinstance(n.func, _ast.Name) and n.func.id == "ptr":
+            pointer, n = True, n.args[0]
+        if isinstance(n, _ast.Attribute):
+            base = se.ev(n.value)
+            fty, owner = S.find_field(base.ty.name, n.attr)
+            if pointer or not (is_listlike(fty) or is_dictlike(fty) or fty.kind == "set"):
+                add("f:%s.%s" % (owner, n.attr), base.t)
+            else:
+                container_keys(old.get_field(base, n.attr))
+            continue
+        container_keys(se.ev(n))
+    return allowed, ghosts
+
+
+def frame_obligations(E: Engine, c: S.Contract, env, st: State, tag):
+    """Everything outside the modifies clause is unchanged for every object that existed on entry."""
+    from .state import ALLOC0
+    allowed, ghosts = frame_allowed(E, c, env)
+    x = z3.Int("x!frame")
+    for key, final in st.heap.items():
+        init = z3.Const("H0_" + key, final.sort())
+        if final.eq(init):
+            continue
+        idxs = []
+        whole = False
+        for pk, lst in allowed.items():
+            star = any(isinstance(i, str) for i in lst)
+            if key == pk or key.startswith(pk + "?") or key.startswith(pk + "!") or key.startswith(pk + "#") or \
+                    (star and key.startswith(pk)):
+                if star:
+                    whole = True
+                idxs.extend(i for i in lst if not isinstance(i, str))
+        if whole:
+            continue
+        cond = [x > 0, x < ALLOC0] + [x != i for i in idxs]
+        goal = z3.ForAll([x], z3.Implies(z3.And(cond), z3.Select(final, x) == z3.Select(init, x)))
+        E.oblige(st, goal, "frame:%s" % key, "P", "frame",
+                 "%s: heap location family %s changes only where `modifies` allows" % (tag, key))
+    for g, v in st.ghost.items():
+        if g.startswith("_") or g in ghosts or g not in S.GHOSTS:
+            continue
+        v0 = E.old0.ghost.get(g)
+        if v0 is None or v.t is None or v0.t is None:
+            continue
+        if not v.t.eq(v0.t):
+            E.oblige(st, v.t == v0.t, "frame:G.%s" % g, "P", "frame", "%s: ghost G.%s not in `modifies`" % (tag, g))
+
+
 def exit_obligations(E: Engine, c: S.Contract, env, kind, st: State, payload):
     old, penv = E.old0, env
+    if kind in ("next", "return", "raise"):
+        frame_obligations(E, c, env, st, "normal exit" if kind != "raise" else "exceptional exit")
     if kind in ("break", "continue"):
         raise Unsupported("break/continue outside loop")
     if kind in ("next", "return"):
         res = payload if kind == "return" else vnone()
         e2 = dict(penv)
         if c.returns is not None:
+            if res.ty.kind == "opt" and c.returns.kind not in ("opt", "any") and not c.returns.nullable:
+                E.oblige(st, z3.Not(res.isnone), "return-not-none", "P", "post",
+                         "returns None where the contract promises %s" % c.returns)
+                res = res.val
             try:
                 res = coerce(res, c.returns)
             except Unsupported as ex:
@@ -276,7 +533,14 @@ def exit_obligations(E: Engine, c: S.Contract, env, kind, st: State, payload):
         return
     # exceptional exit
     exc: Exc = payload
-    se = SpecEval(st, dict(penv), old, penv, E)
+    xenv = dict(penv)
+    if exc.rid is not None:
+        xenv["raised"] = exc.rid
+    elif exc.ref is not None:
+        xenv["raised"] = exc.ref
+    else:
+        xenv["raised"] = fresh(ANY, "raised")
+    se = SpecEval(st, xenv, old, penv, E)
     allowed = None
     for ename, spec in c.raises.items():
         if ename == "*":
